@@ -766,8 +766,8 @@ class NumEnv:
         arrays = [np.asarray(leaves[i]) for i in arr_idx]
         return arrays
 
-    def env_from(self, arrays, seed=0):
-        env = {}
+    def env_from(self, arrays, seed=0, preset=None):
+        env = dict(preset or {})
         for a, sids in zip(arrays, self.in_sids):
             if sids is None:
                 continue
@@ -804,7 +804,7 @@ class NumEnv:
             if rec["native"] is None:
                 for sids in rec["out_sids"]:
                     for s in np.asarray(sids).reshape(-1):
-                        if s >= 0:
+                        if s >= 0 and int(s) not in env:
                             env[int(s)] = float(rng.choice([-1.0, 1.0])) if P.SYMS[int(s)]["kind"] == "rademacher" else float(rng.normal())
                 continue
             ops = [self.evalf_array(o, env) for o in rec["operands"]]
@@ -840,6 +840,10 @@ class NumEnv:
             return float(np.exp(ev(args[0])))
         if kind == "log":
             return float(np.log(ev(args[0])))
+        if kind == "ceil":
+            return float(np.ceil(ev(args[0])))
+        if kind == "floor":
+            return float(np.floor(ev(args[0])))
         if kind == "inf":
             return float("inf")
         if kind == "poison":
@@ -943,7 +947,7 @@ def discharge(ctx: interp.Ctx, contract: Contract, res: Result, numenv: NumEnv, 
                 res.samples.append(detail)
         else:
             entry = {"obligation": ob["name"], "kind": ob["kind"], "reason": how, "detail": detail}
-            tri = triage(ob, numenv, seed, detail=detail, requires=[a for a in ctx.assumptions if a.get('origin') == 'requires'])
+            tri = triage(ob, numenv, seed, detail=detail, requires=[a for a in ctx.assumptions if a.get('origin') == 'requires'], assumptions=ctx.assumptions)
             entry.update(tri)
             if tri.get("holds_numerically"):
                 res.undecided.append(entry)
@@ -1144,7 +1148,7 @@ def _path_term(em, path):
     return ts[0] if len(ts) == 1 else f"(and {' '.join(ts)})"
 
 
-def triage(ob, numenv: NumEnv, seed, npoints=6, detail=None, requires=()):
+def triage(ob, numenv: NumEnv, seed, npoints=6, detail=None, requires=(), assumptions=()):
     """Evaluate a failed goal at the solver's counter-model (if any) and at random points on the
     variety (kernel outputs computed natively)."""
     worst = 0.0
@@ -1170,6 +1174,25 @@ def triage(ob, numenv: NumEnv, seed, npoints=6, detail=None, requires=()):
                 bad = (not numenv.evalb(ob["goal"], env)) if ob["kind"] == "bool" else abs(ob["goal"].p.evalf(env)) > 1e-7
                 if bad and (not ob["path"] or all(numenv.evalb(b, env) for b in ob["path"])):
                     witness = {"inputs": [np.asarray(a).tolist() for a in arrays], "from": "solver-model"}
+                    return {"numeric_worst": 1.0, "holds_numerically": False, "witness": witness}
+            # the counter-model may live in the arbitrary state of a loop rule (havoc symbols): take those values
+            # from the model as well, recompute every kernel / callee output natively, and accept the point only
+            # if every assumption of the verification unit holds there (then the VC is refuted at a concrete point)
+            free = {}
+            for rec in prims.CALL_LOG:
+                if rec["native"] is None:
+                    for sids in rec["out_sids"]:
+                        for sid in np.asarray(sids).reshape(-1):
+                            key = f"s{int(sid)}"
+                            if sid >= 0 and key in model and isinstance(model[key], float):
+                                free[int(sid)] = model[key]
+            if free:
+                env = numenv.env_from(arrays, seed, preset=free)
+                bad = (not numenv.evalb(ob["goal"], env)) if ob["kind"] == "bool" else abs(ob["goal"].p.evalf(env)) > 1e-7
+                applicable = [a for a in assumptions if _implied(a["path"], ob["path"])]
+                if bad and (not ob["path"] or all(numenv.evalb(b, env) for b in ob["path"])) and _requires_hold(applicable, numenv, env):
+                    witness = {"inputs": [np.asarray(a).tolist() for a in arrays], "from": "solver-model (includes the arbitrary state of a loop rule)",
+                               "internal_state": {P.SYMS[k]["name"]: v for k, v in list(free.items())[:40]}, "internal": True}
                     return {"numeric_worst": 1.0, "holds_numerically": False, "witness": witness}
     except Exception as e:
         pass
